@@ -68,7 +68,15 @@ module Wordlevel = struct
       (if Zar.lt b b128 then gw_div_rem_small zw a b = (q, r) && Zar.equal (gw_rem_small zw a b) r
        else nw a < nw b ||
          (gw_div_rem_large zw a b = (q, r) && Zar.equal (gw_div_large zw a b) q && Zar.equal (gw_rem_large zw a b) r)) in
-    typed_ok && idx_ok && gen_ok &&
+    (* round 5: the *_large_dword helpers of div_ops.rs::repr regenerated (Large dividend, Small divisor) and the word / double-word
+       ConstDivisor arms of div_const.rs::repr regenerated (owned and reference Rem, DivRem, Div) *)
+    let gen5_ok =
+      if is_const then Zar.geq b b128 ||
+        (gw5_const_rem zw Zar.zero a b = Ok r && gw5_const_rem zw Zar.one a b = Ok r &&
+         gw5_const_div_rem zw a b = Ok (q, r) && gw5_const_div zw a b = Ok q)
+      else Zar.lt a b128 || Zar.geq b b128 ||
+        (match gw5_large_dword zw a b with Ok [q1; r1; q2; r2] -> Zar.equal q1 q && Zar.equal r1 r && Zar.equal q2 q && Zar.equal r2 r | _ -> false) in
+    typed_ok && idx_ok && gen_ok && gen5_ok &&
     match f with
     | FDiv when not is_const -> s64_repr_div a b = Ok q && m_repr_div a b = Ok q
     | FDivEuclid when ty = "u" -> s64_repr_div a b = Ok q && m_repr_div a b = Ok q
@@ -88,6 +96,8 @@ module Wordlevel = struct
                 | Ok x when show3 x = asis -> asis | _ -> "instances-disagree") in
     (* the generated schoolbook kernel / the generated algorithm switch *)
     let asis = if which = 2 || show3 (gw_kernel zw (Zar.of_int which) lhs rhs (Zar.of_int m)) = asis then asis else "generated-kernel-disagrees" in
+    (* round 5: the same with the RECURSION of divide_conquer.rs regenerated (which = 2: the kernel itself, 0: the switch over it) *)
+    let asis = if show3 (gw5_kernel zw (Zar.of_int which) lhs rhs (Zar.of_int m)) = asis then asis else "generated-recursion-disagrees" in
     let n = nw rhs in
     let cls = Printf.sprintf "cls=k%d-n%s-q%s" which (if n <= 32 then "le32" else "gt32") (if m - n <= 32 then "le32" else if m >= 2 * n then "ge2n" else "gt32") in
     if Sys.getenv_opt "C02_DEBUG" <> None && split_ws asis <> got then prerr_endline ("asis: " ^ asis);
